@@ -688,12 +688,20 @@ static std::string owner_fn(const c19_fault_t &f) {
     for (int i = 0; i < f.depth && i < C19_STACK; i++) { const SiteInfo &s = site(f.stack[i]); if (!s.lib) break; if (!generic_frame(s)) return s.fn; }
     return f.depth ? site(f.stack[0]).fn : "?";
 }
-// leak root cause: the innermost function that is on the stack both when the leaked block was allocated and when the
-// allocation failed - that function saw the failure and was responsible for releasing the block
+// leak root cause.  Local objects: the innermost function that is on the stack both when the leaked block was allocated and
+// when the allocation failed - it saw the failure and had to release the block.  When that function is more than two frames
+// away from the allocation, the block was handed upwards and stored (session / key structure): then the name is the first
+// frame above the crypto layer that obtained the object, which does not depend on where the later failure happened.
 static std::string leak_owner(const c19_fault_t &leaked, const c19_fault_t &failed) {
     std::set<std::string> fs; for (int i = 0; i < failed.depth && i < C19_STACK; i++) { const SiteInfo &s = site(failed.stack[i]); if (!s.lib) break; fs.insert(s.fn); }
-    for (int i = 0; i < leaked.depth && i < C19_STACK; i++) { const SiteInfo &s = site(leaked.stack[i]); if (!s.lib) break; if (!generic_frame(s) && fs.count(s.fn)) return s.fn; }
-    return owner_fn(leaked);
+    int cand = 0; std::string above_crypto;
+    for (int i = 0; i < leaked.depth && i < C19_STACK; i++) {
+        const SiteInfo &s = site(leaked.stack[i]); if (!s.lib) break; if (generic_frame(s)) continue;
+        if (above_crypto.empty() && s.file.compare(0, 7, "crypto/") != 0) above_crypto = s.fn;
+        if (fs.count(s.fn)) return (cand < 2 || above_crypto.empty()) ? s.fn : above_crypto;
+        cand++;
+    }
+    return above_crypto.empty() ? owner_fn(leaked) : above_crypto;
 }
 
 struct Base { bool have = false; bool bad = false; std::string err; uint64_t N = 0; std::vector<uint8_t> bulk; std::vector<uint32_t> rank, ctx; std::vector<void *> sites; std::map<void *, unsigned> live; uint64_t live_total = 0;
